@@ -23,6 +23,9 @@ FILE_TPL = ('use serde::{Serialize, Deserialize};\n#[derive(Serialize, Deseriali
             '#[derive(Serialize, Deserialize)]\npub enum Kind%(k)d { A, B }\n'
             '#[tauri::command]\npub fn get_item%(k)d(id: i32, kind: Kind%(k)d) -> Result<Item%(k)d, String> { todo!() }\n'
             '#[tauri::command]\npub async fn put_item%(k)d(item: Item%(k)d) -> bool { todo!() }\n')
+# every file defines its own `Settings` (different fields) and a command using it
+DUP_TPL = ('use serde::{Serialize, Deserialize};\n#[derive(Serialize, Deserialize)]\npub struct Settings { pub id: i32,%(extra)s }\n'
+           '#[tauri::command]\npub fn load%(k)d() -> Settings { todo!() }\n')
 # the same file with its struct and first command named by holes (symbolic names: every relative order of the names is covered)
 SYM_TPL = FILE_TPL.replace('Item%(k)d', 'HOLE_s%(k)d').replace('get_item%(k)d', 'HOLE_c%(k)d')
 OTHER = 'use serde::Serialize;\n#[derive(Serialize)]\npub struct Other { pub v: u8 }\n#[tauri::command]\npub fn other() -> Other { todo!() }\n'
@@ -64,12 +67,15 @@ class C14(H.Check):
                     yield ('rerun/%s/files%d/maps%d' % (path, k, nm), dict(kind='rerun', path=path, k=k, nm=nm))
             for k in ((1, 2) if q else (1, 2, 3)):
                 yield ('rerun/%s/symbolic-names%d' % (path, k), dict(kind='rerun', path=path, k=k, nm=2, sym=True))
+            # the same type name defined in two (three) files: whichever definition wins must win in every process
+            for k in ((2,) if q else (2, 3)):
+                yield ('rerun/%s/duplicate-type%d' % (path, k), dict(kind='rerun', path=path, k=k, nm=0, dup=True))
             for state in ('absent', 'matching', 'mismatching', 'corrupt'):
                 yield ('force/%s/%s' % (path, state), dict(kind='force', path=path, state=state))
 
     def mutant_scenarios(self, tier, name):
         for j in self.scenarios('quick'):
-            if j[0] in ('rerun/cli/files2/maps2', 'rerun/build/files1/maps0', 'rerun/cli/symbolic-names1', 'force/cli/matching', 'force/build/matching', 'force/cli/absent'):
+            if j[0] in ('rerun/cli/files2/maps2', 'rerun/build/files1/maps0', 'rerun/cli/symbolic-names1', 'rerun/cli/duplicate-type2', 'force/cli/matching', 'force/build/matching', 'force/cli/absent'):
                 yield j
 
     def run_scenario(self, ctx, name, p):
@@ -99,7 +105,11 @@ class C14(H.Check):
                         e.assume(z_not(V.str_eq(holes['c%d' % i], holes['c%d' % j])))
                     for clash in ('Box', 'Vec', 'Map', 'Set', 'Any'):
                         e.assume(z_not(V.str_eq(holes['s%d' % i], Str(clash))))
-                proj = PL.Project({NAMES[i]: (SYM_TPL if symbolic else FILE_TPL) % dict(k=i) for i in range(p['k'])}, holes, {})
+                if p.get('dup'):
+                    srcs = {NAMES[i]: DUP_TPL % dict(k=i, extra=''.join(' pub f%d_%d: u8,' % (i, j) for j in range(i + 1))) for i in range(p['k'])}
+                else:
+                    srcs = {NAMES[i]: (SYM_TPL if symbolic else FILE_TPL) % dict(k=i) for i in range(p['k'])}
+                proj = PL.Project(srcs, holes, {})
                 box = X.Box(I, proj, typegen=tg, out_exists=bool(e.choose(2)) if not symbolic else True)
                 e.cover('rerun:' + path)
                 wit = lambda m: dict(kind='rerun', path=path, files=proj.concrete_files(m)[0], typegen=tg, runs=3 if ctx.tier == 'thorough' else 2)
